@@ -31,7 +31,7 @@ ASSUMPTIONS = [
     'the harness algorithm is plugged in through the documented policy_factory argument of the servers and of PythiaServicer',
     'the implicit local service is configured through vizier_client.environment_variables (documented knob)',
 ]
-REQUIRED_COUNTERS = ['traces_compared', 'calls_recorded', 'not_found_paths', 'illegal_calls_over_wire',
+REQUIRED_COUNTERS = ['concurrent_study_probes_run', 'traces_compared', 'calls_recorded', 'not_found_paths', 'illegal_calls_over_wire',
                      'promise_checks', 'server_writes_monitored']
 MIN_DISTINCT = {'quick': 60, 'thorough': 1500}
 DEPLOYMENTS = [('local', 'ram'), ('local', 'sqlmem'), ('grpc', 'ram'), ('grpc', 'sqlmem'), ('split', 'ram'), ('split', 'sqlmem')]
@@ -457,10 +457,77 @@ def run_case(ctx, index, deployments, ops=None):
   return ops
 
 
+def concurrent_studies_probe(ctx, index, deployments):
+  """Two clients on two *different* studies at the same time, the first study's algorithm
+  being slow: every deployment must serve both (the calls are independent), with the same
+  trials. Sequential programs never have two algorithm requests in flight."""
+  import threading
+  import time
+  from vizier import pyvizier as vz
+  from vizier._src.service import clients
+  from vv import service as S
+  outcomes = {}
+  case = {'probe': 'concurrent-studies', 'index': index}
+  for kind, backend in DEPLOYMENTS:
+    dep = f'{kind}-{backend}'
+    owner = f'cc{index}'
+    mon, ctl = deployments.activate(kind, backend, owner)
+    ctl.stub_studies.update({f'owners/{owner}/studies/a', f'owners/{owner}/studies/b'})
+    cfg = S.make_study_config('VVSTUB', (('obj', 'MAXIMIZE'),))
+    res = {}
+    try:
+      sa = clients.Study.from_study_config(cfg, owner=owner, study_id='a')
+      sb = clients.Study.from_study_config(cfg, owner=owner, study_id='b')
+      ctl.default = {'delta': 0, 'sleep': 0.5}
+
+      def work(name, study, delay):
+        time.sleep(delay)
+        try:
+          ts = study.suggest(count=2, client_id='w')
+          res[name] = ['ok', sorted(t.id for t in ts)]
+        except Exception as e:  # pylint: disable=broad-except
+          res[name] = ['exc', exc_class(e)]
+      th = [threading.Thread(target=work, args=('a', sa, 0.0), daemon=True),
+            threading.Thread(target=work, args=('b', sb, 0.15), daemon=True)]
+      for t in th:
+        t.start()
+      for t in th:
+        t.join(60)
+      if any(t.is_alive() for t in th):
+        res['hung'] = True
+      # and afterwards both studies still work
+      ctl.default = {'delta': 0}
+      for name, study in (('a', sa), ('b', sb)):
+        try:
+          res[name + '-after'] = ['ok', sorted(t.id for t in study.suggest(count=3, client_id='w'))]
+        except Exception as e:  # pylint: disable=broad-except
+          res[name + '-after'] = ['exc', exc_class(e)]
+    except Exception as e:  # pylint: disable=broad-except
+      res['setup'] = ['exc', exc_class(e)]
+    finally:
+      ctl.default = {'delta': 0}
+    outcomes[dep] = res
+    ctx.count('concurrent_study_probes_run')
+  ref = outcomes['local-ram']
+  for dep, res in outcomes.items():
+    if res != ref:
+      kind = dep.split('-')[0]
+      bad = sorted(k for k in set(res) | set(ref) if res.get(k) != ref.get(k))
+      what = res.get(bad[0])
+      tag = (what[1] if isinstance(what, list) and what[0] == 'exc' else 'differs')
+      ctx.violation(f'concurrent-studies:{bad[0]}:{tag}:{kind}',
+                    f'two clients on two different studies at the same time: local-ram -> {ref} but {dep} -> {res}'[:600],
+                    case)
+  if any(v[0] == 'exc' for v in ref.values() if isinstance(v, list)) or ref.get('hung'):
+    ctx.violation('concurrent-studies:reference-failed', f'local-ram: {ref}', case)
+  ctx.case(['concurrent-studies', index % 3], nontrivial=True)
+
+
 def run_shard(ctx):
   deployments = Deployments()
   try:
     n = 600 if ctx.tier == 'quick' else 30000
+    concurrent_studies_probe(ctx, 900000 + ctx.shard, deployments)
     for i in range(n):
       if not ctx.mine(i):
         continue
@@ -477,6 +544,9 @@ def run_shard(ctx):
 def replay(ctx, case):
   deployments = Deployments()
   try:
+    if case.get('probe') == 'concurrent-studies':
+      concurrent_studies_probe(ctx, case['index'], deployments)
+      return
     run_case(ctx, case.get('index', 0), deployments, ops=case['ops'])
   finally:
     deployments.close()
